@@ -398,7 +398,12 @@ XSModel *GrammarResolver::getXSModel()
             }       
         }
         else {
-            // we know that the grammar pool XSModel is the same as before
+            // we know that the grammar pool XSModel is the same as before;
+            // if this resolver has not seen it yet (the model of a locked
+            // pool, for instance, never reports a change) adopt it now
+            if (!fGrammarPoolXSModel)
+                fGrammarPoolXSModel = xsModel;
+
             if (fGrammarsToAddToXSModel->size())
             {
                 // we need to update our fXSModel with the new grammars               
